@@ -442,3 +442,116 @@ func minimalFlags(l CfgLit) CfgLit {
 	}
 	return l
 }
+
+// requestHeaderDictionary: request headers that browsers, proxies and frameworks really send, with values that mean
+// something to somebody. A CORS middleware reads Origin and the three Access-Control-Request-* headers and nothing
+// else: adding any of these to a request must not change what the middleware does with it.
+var requestHeaderDictionary = func() [][2]string {
+	var d [][2]string
+	add := func(name string, values ...string) {
+		for _, v := range values {
+			d = append(d, [2]string{name, v})
+		}
+	}
+	add("Sec-Fetch-Site", "same-origin", "same-site", "cross-site", "none")
+	add("Sec-Fetch-Mode", "cors", "no-cors", "navigate", "same-origin", "websocket")
+	add("Sec-Fetch-Dest", "empty", "document", "iframe", "script")
+	add("Sec-Fetch-User", "?1")
+	add("Sec-Fetch-Storage-Access", "active", "inactive", "none")
+	add("Sec-Purpose", "prefetch", "prefetch;prerender")
+	add("Sec-GPC", "1")
+	add("Sec-CH-UA-Mobile", "?0")
+	add("Sec-WebSocket-Version", "13")
+	add("Access-Control-Request-Local-Network", "true", "false")
+	add("Access-Control-Request-Credentials", "true")
+	add("Access-Control-Request-External", "true")
+	add("Access-Control-Request-Origin", "https://a.example")
+	add("Access-Control-Allow-Origin", "*", "https://a.example")
+	add("Access-Control-Allow-Credentials", "true")
+	add("Access-Control-Allow-Private-Network", "true")
+	add("Private-Network-Access-Id", "01:23:45:67:89:0A")
+	add("Private-Network-Access-Name", "device")
+	add("Host", "a.example", "evil.example", "localhost")
+	add("X-Forwarded-Host", "a.example", "evil.example")
+	add("X-Forwarded-Proto", "https", "http")
+	add("X-Forwarded-For", "127.0.0.1", "10.0.0.1")
+	add("Forwarded", "for=127.0.0.1;proto=https;host=a.example")
+	add("X-Real-IP", "127.0.0.1")
+	add("X-Original-URL", "/admin")
+	add("X-HTTP-Method-Override", "GET", "OPTIONS", "PUT")
+	add("X-HTTP-Method", "OPTIONS")
+	add("X-Method-Override", "DELETE")
+	add("X-Requested-With", "XMLHttpRequest")
+	add("Referer", "https://a.example/", "https://evil.example/")
+	add("Cookie", "sid=1")
+	add("Authorization", "Bearer x", "Basic dTpw")
+	add("Proxy-Authorization", "Basic dTpw")
+	add("Content-Type", "application/json", "text/plain", "multipart/form-data")
+	add("Content-Length", "0", "5")
+	add("Accept", "*/*", "application/json")
+	add("Accept-Language", "en")
+	add("Accept-Encoding", "gzip, br")
+	add("User-Agent", "Mozilla/5.0", "curl/8.0")
+	add("Connection", "keep-alive", "close", "Upgrade")
+	add("Upgrade", "websocket", "h2c")
+	add("Upgrade-Insecure-Requests", "1")
+	add("Cache-Control", "no-cache", "max-age=0")
+	add("Pragma", "no-cache")
+	add("If-None-Match", "\"x\"")
+	add("Range", "bytes=0-1")
+	add("DNT", "1")
+	add("TE", "trailers")
+	add("Via", "1.1 proxy")
+	add("Expect", "100-continue")
+	add("Service-Worker", "script")
+	add("Service-Worker-Navigation-Preload", "true")
+	add("Purpose", "prefetch")
+	add("X-Debug", "1", "true")
+	add("X-Cors-Debug", "true")
+	add("Vary", "Origin")
+	add("Timing-Allow-Origin", "*")
+	add("Origin-Agent-Cluster", "?1")
+	add("Cross-Origin-Resource-Policy", "cross-origin")
+	return d
+}()
+
+// withDictionaryHeader returns r with one more header (existing values of that name are kept in front).
+func withDictionaryHeader(r vlib.Req, e [2]string) vlib.Req {
+	h := make(map[string][]string, len(r.Hdr)+1)
+	for k, v := range r.Hdr {
+		h[k] = v
+	}
+	h[e[0]] = append(append([]string(nil), r.Hdr[e[0]]...), e[1])
+	return vlib.Req{Method: r.Method, Hdr: h}
+}
+
+// trafficSequence is a long deterministic request history for one middleware: n distinct origins under the allowed
+// wildcard base (allowedFmt, e.g. "https://t%d.a.b") and n near misses (deniedFmt), as actual requests and preflights,
+// every origin coming back immediately, after a few requests, after a few dozen and after about a hundred others
+// (fixed-size memos, rings and pools behave differently once they have wrapped).
+func trafficSequence(n int, allowedFmt, deniedFmt string) []vlib.Req {
+	var out []vlib.Req
+	emit := func(format string, i int, preflight bool) {
+		if i < 0 {
+			return
+		}
+		o := fmt.Sprintf(format, i)
+		if preflight {
+			out = append(out, vlib.Req{Method: "OPTIONS", Hdr: map[string][]string{"Origin": {o}, "Access-Control-Request-Method": {"PUT"}, "Access-Control-Request-Headers": {"x-a"}}})
+		} else {
+			out = append(out, vlib.Req{Method: "GET", Hdr: map[string][]string{"Origin": {o}}})
+		}
+	}
+	for i := 0; i < n; i++ {
+		emit(allowedFmt, i, i%2 == 0)
+		emit(deniedFmt, i, i%3 == 0)
+		emit(deniedFmt, i, false) // immediately again
+		emit(allowedFmt, i-2, false)
+		emit(deniedFmt, i-5, i%2 == 1)
+		emit(deniedFmt, i-37, false)
+		emit(allowedFmt, i-41, true)
+		emit(deniedFmt, i-101, false)
+		emit(allowedFmt, i-130, false)
+	}
+	return out
+}
